@@ -44,6 +44,9 @@ func c15Pair(seed uint64, shape string) *lib.Pair {
 		p.New.PutFile("mixed.bin", nd)
 		p.New.PutFile("mixed2.bin", append(append([]byte(nil), olds[n-1][:lib.BS]...), olds[0][:lib.BS]...))
 		p.New.PutFile("src0.bin", olds[0])
+		// an exact tie between the SAME-PATH old file and another old file with a lower container index
+		last := fmt.Sprintf("src%d.bin", n-1)
+		p.New.PutFile(last, append(append([]byte(nil), olds[0][:lib.BS]...), olds[n-1][:lib.BS]...))
 		p.Feat["equal-shares"] = true
 		return p
 	case "tiny":
@@ -166,7 +169,11 @@ func c15Run(c lib.Case, env *lib.Env) lib.Result {
 			op.Comp = &lib.Comp{Algo: "none"}
 			var first []byte
 			var sums []string
-			for run := 0; run < s.Runs; run++ {
+			optRuns := s.Runs
+			if s.Shape == "shares" && env.Flavor == "plain" {
+				optRuns = 4 * s.Runs // map-order ties show up in a fraction of the runs only
+			}
+			for run := 0; run < optRuns; run++ {
 				runtime.GOMAXPROCS(procsList[run%len(procsList)])
 				sc := lib.NewSched("perturb", lib.Mix(s.PairSeed, 152, uint64(run)))
 				if run%2 == 1 {
